@@ -36,3 +36,5 @@ INVARIANT DF_Persist_S
 INVARIANT DF_InplaceEqualsCopy_S
 INVARIANT DF_InplaceReturnsSelf_S
 INVARIANT DF_AffineExact_S
+INVARIANT DF_Integrate_S
+INVARIANT DF_SetSub_S
